@@ -185,11 +185,17 @@ class BroadcastTo(ArrayExpr):
                     # Real dimension - push the slice
                     input_slices.append(idx)
 
-        # Slice the input array
+        # Slice the input array -- under the pin broadcast_to() put on its
+        # layout, which is then renewed for the sliced input (as
+        # broadcast_to() of the sliced input would)
+        from dask_array._expr import ChunksFreeze
+
+        pinned = isinstance(input_arr, ChunksFreeze)
+        sliced_input = new_collection(input_arr.array if pinned else input_arr)
         if input_slices:
-            sliced_input = new_collection(input_arr)[tuple(input_slices)]
-        else:
-            sliced_input = new_collection(input_arr)
+            sliced_input = sliced_input[tuple(input_slices)]
+        if pinned:
+            sliced_input = sliced_input.freeze_chunks()
 
         # Compute new chunks for the output
         # For dimensions from input: use input's (sliced) chunks
@@ -306,4 +312,7 @@ def broadcast_to(x, shape, chunks=None, meta=None):
                     "dimension or a dimension of size 1"
                 )
 
-    return new_collection(BroadcastTo(x.expr, shape, chunks, meta))
+    # ``chunks`` is a literal of x's current layout (block by block the
+    # result reads the block of x with the same position): pin that layout,
+    # so a rewrite of x onto other chunks cannot leave the two out of step
+    return new_collection(BroadcastTo(x.freeze_chunks().expr, shape, chunks, meta))
